@@ -142,6 +142,19 @@ var propSpecs = []PropSpec{
 				}
 			}
 		}},
+	{ID: "C20", Pkgs: []string{"pubsub"},
+		BoundsQ:     "one iterator goroutine (Queue Producer/Iterator; Deque forward/reverse x blocking/non-blocking producers), initial contents <=2 symbolic items, one mutator goroutine with <=3 (queue) / <=2 (deque) operations out of {Add/Push at the far end, Close, cancel} and, in the removal regime, Remove/Pop and pushes at the near end; preemption bound 2 (queue) / 1 (deque)",
+		BoundsT:     "deque: <=3 mutations; preemption bound 3 / 2",
+		Outside:     "more items or mutations; several iterators at once; with concurrent removal only the weak clauses of the statement are asserted",
+		Assumptions: commonAssumptions,
+		Tune: func(cfg *Config, tier, entry string) {
+			if entry == "VC20_Deque" {
+				cfg.Preempt = 1
+				if tier == "thorough" {
+					cfg.Preempt = 2
+				}
+			}
+		}},
 	{ID: "TV", Pkgs: []string{"internal"}, BoundsQ: "translator validation corpus"},
 }
 
